@@ -12,6 +12,16 @@ the generated file is written with generate(), and
 Additionally (parser half of the special-float round trip, which the writer cannot reach on the unchanged
 tree): a token that FileParser itself turns into a float must be the float Python reads from that token.
 
+Call sequences (part 'seq', generator and location model in omv/gen/c29_seq.py): record decks whose lines carry the
+anchor text several times ('GRID 3 GRID_X 0.0', 'x = x0', self-overlapping and regex-special anchors), stepped through
+with 2-5 [reset_anchor()] mark_anchor(text, n) transfer_var(...) steps (n = 1, 2, 3, -1, -2, -3, non-existent; from a
+fresh and from an anchored state; same / other anchor text; anchors on the first / last line).  The SAME calls are
+applied to InputFileGenerator and, on the generated file, to FileParser (mark_anchor of the two classes must agree):
+  (3) every step changed its own field on exactly one line, and that line is admissible for the call under the
+      documentation (own model; where the documentation leaves room both readings are admissible);
+  (4) the parser reads every value back from (row, field) after the same calls; nothing else in the file changed;
+  (5) an occurrence that does not exist raises RuntimeError in both classes.
+
 Tolerance for floats: the writer documents 16 significant digits ('%.16g'): relative rounding error
 <= 0.5e-15, reading the decimal back adds <= 2**-53  ->  |read - v| <= 6.2e-16 |v| (+ one denormal ulp).
 numpy.float32 values are held to float32 precision only (np.float32(read) == v).
@@ -22,6 +32,7 @@ import random
 import numpy as np
 
 from omv.core import fingerprint
+from omv.gen import c29_seq as SQ
 
 PROPERTY = 'C29'
 LEVEL = 'exploration'
@@ -31,9 +42,14 @@ RULE = ('random templates (4-10 lines: text, anchor and data lines; 5 delimiter 
         'the end, row offsets of both signs) x operation (var, keyvar, array exact/shorter/longer, multi-row '
         'array, 2-D array) x value class (ints of both signs and sizes, numpy ints, integer-valued floats, '
         'fractions, exponent forms with and without decimal point of both signs, huge, denormal, -0.0, inf, '
-        '-inf, nan, float32, words, words starting with Inf/NaN/nan); distinct = distinct (operation, '
-        'delimiters, anchor kind, row sign, value classes, template shape); non-trivial = every judged case '
-        '(a value was written and read back)')
+        '-inf, nan, float32, words, words starting with Inf/NaN/nan); plus call sequences: random record decks '
+        '(3-9 lines of alternating label / placeholder tokens, anchor text 1-3 times per line and several times per '
+        'token: keyword that is prefix / suffix / double of other labels, one-letter anchors, regex-special and '
+        'self-overlapping anchors, a second anchor text on the same or other lines) x 2-5 steps [reset_anchor] '
+        'mark_anchor(text, 1|2|3|-1|-2|-3|missing) transfer_var(value, row -2..2, own field) applied identically to '
+        'generator and parser; distinct = distinct (operation, delimiters, anchor kind, row sign, value classes, '
+        'template shape) resp. (delimiters, anchor family, deck shape, classes of all steps, value classes); '
+        'non-trivial = every judged case (a value was written and read back)')
 LEVEL_TEXT = ('each generated (template, location, value) was pushed through the real writer and the real parser '
               'and compared with the value written and with the untouched rest of the template; value classes '
               'are enumerated by construction, templates are random')
@@ -45,11 +61,20 @@ ASSUMPTIONS = ['Python float()/int() of a token is the reference reading of that
                'Inf/NaN spellings, so that field numbering of untouched fields is unambiguous',
                'arrays longer than the template are only generated when the array ends at the end of its line '
                '(the writer documents appending at the end of the line) and with a separator that is a delimiter',
-               'anchors are located after reset_anchor() as the n-th (or n-th from the end) line containing the '
-               'anchor text; full-line comment removal and "columns" mode are not generated (they renumber '
-               'rows/columns by design)',
+               'round-trip part: anchors are located after reset_anchor() as the n-th (or n-th from the end) line '
+               'containing the anchor text; full-line comment removal and "columns" mode are not generated (they '
+               'renumber rows/columns by design)',
+               'call sequences: a forward mark_anchor from an anchored state finds the n-th line BELOW the current '
+               'one; if the current line contains the text other than exactly once as the anchor just marked, the '
+               'reading that counts the current line first is admitted too; a reverse search counts from the end '
+               'of the file, and when anchored with the text on the last line the reading that skips the last line '
+               '(what both classes do, contrary to "always start at the end of the file") is admitted too - in these '
+               'cases only generator/parser agreement, the landing on an admissible line and the untouched rest '
+               'are demanded',
+               'call sequences: written values never contain an anchor text and never equal the placeholder they '
+               'replace; labels consist of characters the parser documents as text for the delimiter set',
                '-0.0 is compared as equal to 0.0 (sign of zero is not demanded)']
-MIN_JUDGED = {'quick': 2000, 'thorough': 50000}
+MIN_JUDGED = {'quick': 4500, 'thorough': 85000}
 REQUIRED_COUNTERS = ['obs:write:var', 'obs:write:array', 'obs:write:2darray', 'obs:read:transfer_var',
                      'obs:read:transfer_keyvar', 'obs:read:transfer_array', 'obs:read:transfer_2Darray',
                      'obs:textdiff', 'obs:class:int', 'obs:class:float-int-valued', 'obs:class:float-frac',
@@ -58,7 +83,16 @@ REQUIRED_COUNTERS = ['obs:write:var', 'obs:write:array', 'obs:write:2darray', 'o
                      'obs:class:str-word', 'obs:array:exact', 'obs:array:longer', 'obs:array:shorter',
                      'obs:array:multirow', 'obs:anchor:forward', 'obs:anchor:backward', 'obs:anchor:none',
                      'obs:delims:ws', 'obs:delims:comma', 'obs:delims:eq', 'obs:delims:mix', 'obs:delims:ws-tab',
-                     'obs:parse-only']
+                     'obs:parse-only', 'obs:seq', 'obs:seq:step:fresh-fwd', 'obs:seq:step:fresh-bwd',
+                     'obs:seq:step:anchored-fwd-same-cur-1', 'obs:seq:step:anchored-fwd-same-cur-multi',
+                     'obs:seq:step:anchored-fwd-other-cur-0', 'obs:seq:step:anchored-fwd-other-cur-1',
+                     'obs:seq:step:anchored-fwd-other-cur-multi', 'obs:seq:step:anchored-bwd-same-last-0',
+                     'obs:seq:step:anchored-bwd-same-last-has', 'obs:seq:step:anchored-bwd-other-last-0',
+                     'obs:seq:step:anchored-bwd-other-last-has', 'obs:seq:family:prefix', 'obs:seq:family:short',
+                     'obs:seq:family:keyeq', 'obs:seq:family:regex', 'obs:seq:family:overlap',
+                     'obs:seq:family:plain', 'obs:seq:anchor-first-line', 'obs:seq:anchor-last-line',
+                     'obs:seq:missing-anchor', 'obs:seq:row-offset-nonzero',
+                     'obs:seq:step-with-two-admissible-readings']
 SHARD_TIMEOUT = {'quick': 600, 'thorough': 2400}
 
 DELIMS = {
@@ -665,6 +699,224 @@ def _vshort(v):
 
 
 # ----------------------------------------------------------------------------------------------
+# anchor call sequences on record decks (generator and location model: omv/gen/c29_seq.py)
+# ----------------------------------------------------------------------------------------------
+def gen_seq(rng):
+    mode = rng.choice(list(DELIMS))
+    case = SQ.gen_seq_case(rng, mode, DELIMS[mode]['seps'], gen_scalar)
+    for st in case['steps']:
+        if not st['missing']:
+            st['value'] = enc_val(st['value'])
+    return case
+
+
+def judge_seq(case, acc):
+    """The SAME sequence of [reset_anchor] mark_anchor transfer_var calls is applied to the generator and, on the
+    generated file, to the parser.  Judged step by step, from the state observed so far:
+      * the step's field number changed on exactly one line, and that line is admissible for the call
+        (SQ.admissible: the documented reading; both readings where the documentation leaves room);
+      * the parser reads the value written back from (row, field) after the same calls;
+      * an occurrence that does not exist is reported by both classes (RuntimeError);
+    and at the end: no other token, no separator and not the number of lines changed."""
+    from openmdao.utils.file_wrap import InputFileGenerator, FileParser
+    mode = case['mode']
+    D = DELIMS[mode]
+    chars = D['chars']
+    lines = case['lines']
+    steps = case['steps']
+    template = '\n'.join(lines) + ('\n' if case['final_newline'] else '')
+    tname, oname = 'c29_seq_template.txt', 'c29_seq_generated.txt'
+    with open(tname, 'w') as f:
+        f.write(template)
+    acc.count('obs:seq')
+    acc.count('obs:delims:' + mode)
+    acc.count('obs:seq:family:' + case['family'])
+    values = [None if st['missing'] else dec_val(st['value']) for st in steps]
+
+    def call(st):
+        return '%smark_anchor(%r, %d)' % ('reset_anchor(); ' if st['reset'] else '', st['text'], st['occ'])
+
+    # ---- model walk with the documented reading only (for classes / fingerprint; the judgement below uses the
+    #      observed state)
+    viols = []
+    fp_classes = []
+
+    def finish(fp_extra=None):
+        fp = fingerprint(['seq', mode, case['family'], len(lines), case['m'], case['parity'], case['final_newline'],
+                          fp_classes, [None if v is None else vclass(v) for v in values]])
+        if viols:
+            for i, (k, w) in enumerate(viols):
+                acc.viol(k, w, case, fp=fp, new_case=(i == 0))
+        else:
+            acc.ok(fp, sample=case if acc.judged % 701 == 0 else None)
+
+    # ---- writer ------------------------------------------------------------------------------
+    wr_missing = {}
+    try:
+        gen = InputFileGenerator()
+        gen.set_template_file(tname)
+        gen.set_generated_file(oname)
+        if D['w'] is not None:
+            gen.set_delimiters(D['w'])
+    except Exception as e:
+        viols.append(('seq:setup:writer-raises-%s' % type(e).__name__, str(e)[:200]))
+        return finish()
+    wr_error = None
+    for s, st in enumerate(steps):
+        try:
+            if st['reset']:
+                gen.reset_anchor()
+            try:
+                gen.mark_anchor(st['text'], st['occ'])
+                wr_missing[s] = False
+            except RuntimeError:
+                wr_missing[s] = True
+                if st['missing']:
+                    continue
+                raise
+            if not st['missing']:
+                acc.count('obs:write:var')
+                gen.transfer_var(values[s], st['row'], st['field'])
+        except Exception as e:
+            wr_error = (s, e)
+            break
+    text = None
+    try:
+        gen.generate()          # also after an error: the steps before it are judged on what was written so far
+        with open(oname) as f:
+            text = f.read()
+    except Exception as e:
+        viols.append(('seq:generate:writer-raises-%s' % type(e).__name__, 'generate() raised %s; template %r, steps %r'
+                      % (str(e)[:120], lines, [call(st) for st in steps])))
+        return finish()
+    nrun = len(steps) if wr_error is None else wr_error[0]
+    # ---- reader: the same calls on the generated file ------------------------------------------
+    got = {}
+    rd_missing = {}
+    rd_error = None
+    try:
+        par = FileParser()
+        if D['r'] is not None:
+            par.set_delimiters(D['r'])
+        par.set_file(oname)
+    except Exception as e:
+        viols.append(('seq:setup:reader-raises-%s' % type(e).__name__, str(e)[:200]))
+        return finish()
+    for s, st in enumerate(steps[:nrun]):
+        try:
+            if st['reset']:
+                par.reset_anchor()
+            try:
+                par.mark_anchor(st['text'], st['occ'])
+                rd_missing[s] = False
+            except RuntimeError:
+                rd_missing[s] = True
+                if st['missing']:
+                    continue
+                raise
+            if not st['missing']:
+                got[s] = par.transfer_var(st['row'], st['field'])
+                acc.count('obs:read:transfer_var')
+        except Exception as e:
+            rd_error = (s, e)
+            break
+    # ---- token diff ------------------------------------------------------------------------------
+    changed = {}            # token index -> [line, ...]
+    other = None
+    acc.count('obs:textdiff')
+    tlines = template.split('\n')
+    glines = text.split('\n')
+    if len(glines) != len(tlines):
+        other = ('line-count-changed', 'template has %d lines, generated file %d' % (len(tlines), len(glines)))
+    else:
+        wfields = set(st['field'] - 1 for st in steps if not st['missing'])
+        for i, (tl_, gl_) in enumerate(zip(tlines, glines)):
+            tt, ts = tokenize(tl_, chars)
+            gt, gs = tokenize(gl_, chars)
+            if len(tt) != len(gt) or ts != gs:
+                other = other or ('other-line-changed', 'line %d: template %r -> generated %r' % (i, tl_, gl_))
+                continue
+            for j in range(len(tt)):
+                if tt[j] != gt[j]:
+                    if j in wfields:
+                        changed.setdefault(j, []).append(i)
+                    else:
+                        other = other or ('other-field-changed', 'line %d: field %d is not written by any step: '
+                                          'template %r -> generated %r' % (i, j + 1, tl_, gl_))
+    # ---- step by step, from the observed state --------------------------------------------------
+    state = (0, False, None)
+    for s, st in enumerate(steps):
+        if st['reset']:
+            state = (0, False, None)
+        cls = SQ.step_class(lines, state, st['text'], st['occ'])
+        fp_classes.append(cls + (':missing' if st['missing'] else ''))
+        acc.count('obs:seq:step:' + cls)
+        adm = SQ.admissible(lines, state, st['text'], st['occ'])
+        if len(adm) > 1:
+            acc.count('obs:seq:step-with-two-admissible-readings')
+        if wr_error is not None and wr_error[0] == s:
+            e = wr_error[1]
+            viols.append(('seq:%s:writer-raises-%s' % (cls, type(e).__name__),
+                          'step %d %s then transfer_var(%s, %s, %s) on the generator raised %s: %s; template %r' %
+                          (s + 1, call(st), _vshort(values[s]), st.get('row'), st.get('field'), type(e).__name__,
+                           str(e)[:120], lines)))
+            break
+        if st['missing']:
+            acc.count('obs:seq:missing-anchor')
+            if rd_error is not None and rd_error[0] == s:
+                e = rd_error[1]
+                viols.append(('seq:%s:reader-raises-%s' % (cls, type(e).__name__),
+                              'step %d %s on the parser raised %s: %s; generated %r' %
+                              (s + 1, call(st), type(e).__name__, str(e)[:120], text)))
+                break
+            if not wr_missing.get(s) or not rd_missing.get(s, True):
+                who = 'writer' if not wr_missing.get(s) else 'reader'
+                viols.append(('seq:%s:missing-occurrence-not-reported-by-%s' % (cls, who),
+                              'step %d %s: no such occurrence in %r, but no RuntimeError' % (s + 1, call(st), lines)))
+                break
+            continue
+        j = st['field'] - 1
+        where = changed.get(j, [])
+        if len(where) != 1:
+            viols.append(('seq:%s:%s' % (cls, 'value-not-written' if not where else 'field-written-on-several-lines'),
+                          'step %d %s transfer_var(%s, %d, %d): field %d changed on lines %s; template %r -> '
+                          'generated %r' % (s + 1, call(st), _vshort(values[s]), st['row'], st['field'], st['field'],
+                                           where, lines, text)))
+            break
+        landed = where[0] - st['row']
+        if landed not in adm:
+            viols.append(('seq:%s:written-relative-to-inadmissible-line' % cls,
+                          'step %d %s from line %d (anchored=%s): generator anchored on line %d, admissible %s; '
+                          'template %r' % (s + 1, call(st), state[0], state[1], landed, sorted(adm), lines)))
+            break
+        if st['row'] == 0 and landed == 0:
+            acc.count('obs:seq:anchor-first-line')
+        if st['row'] == 0 and landed == len(lines) - 1:
+            acc.count('obs:seq:anchor-last-line')
+        if st['row'] != 0:
+            acc.count('obs:seq:row-offset-nonzero')
+        if rd_error is not None and rd_error[0] == s:
+            e = rd_error[1]
+            viols.append(('seq:%s:reader-raises-%s' % (cls, type(e).__name__),
+                          'step %d %s then transfer_var(%d, %d) on the parser raised %s: %s; generated %r' %
+                          (s + 1, call(st), st['row'], st['field'], type(e).__name__, str(e)[:120], text)))
+            break
+        why = same_value(got[s], values[s])
+        if why:
+            viols.append(('seq:%s:read-back-differs' % cls,
+                          'step %d %s: generator wrote %s at (line %d, field %d); parser after the same calls at '
+                          '(row %d, field %d) %s; generated %r' % (s + 1, call(st), _vshort(values[s]), where[0],
+                                                                  st['field'], st['row'], st['field'], why, text)))
+            break
+        if len(adm) > 1 and st['occ'] < 0 and landed == min(adm):
+            acc.count('note:reverse-search-from-anchored-state-skips-last-line')
+        state = (landed, True, st['text'])
+    if not viols and other is not None:
+        viols.append(('seq:any:' + other[0], other[1] + '; template %r' % (lines,)))
+    return finish()
+
+
+# ----------------------------------------------------------------------------------------------
 # parser half of the special-float round trip
 # ----------------------------------------------------------------------------------------------
 SPECIAL_TOKENS = ['Inf', '-Inf', 'NaN', 'nan', '+Inf', 'inf', '-inf', 'INF', '-INF', 'NAN']
@@ -713,7 +965,8 @@ def shards(tier, seed):
         ns, per = 16, 220
     else:
         ns, per = 32, 1700
-    return [{'seed': seed * 1000003 + k, 'n': per, 'parse_only': k == 0} for k in range(ns)]
+    nseq = (per * 3) // 4
+    return [{'seed': seed * 1000003 + k, 'n': per, 'nseq': nseq, 'parse_only': k == 0} for k in range(ns)]
 
 
 def run_shard(shard, acc):
@@ -726,10 +979,15 @@ def run_shard(shard, acc):
                                       'before': ['1.5', 'abc'][:nb], 'after': ['2.5'][:na]}, acc)
     for _ in range(shard['n']):
         run_case(gen_case(rng), acc)
+    rng = random.Random(shard['seed'] + 500009)
+    for _ in range(shard.get('nseq', 0)):
+        run_case(gen_seq(rng), acc)
 
 
 def run_case(case, acc):
     if case['kind'] == 'parse-only':
         judge_parse_only(case, acc)
+    elif case['kind'] == 'seq':
+        judge_seq(case, acc)
     else:
         judge_roundtrip(case, acc)
